@@ -18,6 +18,7 @@ def key(t):
 
 class C02(C01):
     pid = "C02"
+    coq_targets = ["Properties/C02.vo", "Model/CheckC01.vo"]
     theorems = ["C02_bounds_of_kept_grouping", "C02_group_count", "C02_checker_predicate_holds_on_model"]
 
     def oracle(self, case, out):
